@@ -5,6 +5,7 @@ REGISTRY = {
     "C17": {"harnesses": ["harness.h17"], "level": "other"},
     "C20": {"harnesses": ["harness.h20"], "level": "other"},
     "C18": {"harnesses": ["harness.h18"], "level": "other"},
+    "C12": {"harnesses": ["harness.h12"], "level": "other"},
     "C15": {"harnesses": ["harness.h15"], "level": "other"},
     "C02": {"harnesses": ["harness.h02"], "level": "other"},
     "C03": {"harnesses": ["harness.hrx"], "level": "model_checking"},
